@@ -29,7 +29,7 @@ EXHAUSTIVE_SUBDOMAINS = ["every single cut and every pair of cuts of each genera
 ASSUMPTIONS = ["streams start at a frame boundary and end with a sentinel frame, so every judged frame is eventually followed "
                "by a frame start", "end-to-end sessions whose bytes were not all delivered before the receive timeout are "
                "counted as inconclusive sessions, never as violations"]
-REQUIRED = ["beast_single", "beast_double", "beast_random", "beast_cut_inside_escape", "beast_cut_after_frame_start",
+REQUIRED = ["e2e_quiet_spells_between_reads", "beast_single", "beast_double", "beast_random", "beast_cut_inside_escape", "beast_cut_after_frame_start",
             "beast_rssi", "raw_single", "raw_double", "sky_single", "sky_double", "netsource", "netsource_commb_backlog_over_1000", "second_client_alive", "e2e_sessions"]
 # e2e_midframe_boundary (a recv() boundary inside a frame was actually observed) is reported in the evidence but not
 # required: TCP may coalesce pieces on a loaded machine and that must not turn the verdict inconclusive
@@ -303,6 +303,8 @@ def m_e2e(ctx, case):
             # a receive time-out while the feed pauses between two chunks (RCVTIMEO expiring) takes nothing from the stream:
             # the run loop has to go on with the bytes it already holds
             rec["calls"] = rec.get("calls", 0) + 1
+            if "vclock" in rec and rec["calls"] % 2 == 0:
+                rec["vclock"]["off"] += (11.0, 61.0, 3600.0)[(rec["calls"] // 2) % 3]
             # everything received so far has been through the parser: note (bytes delivered, frames handed on)
             rec.setdefault("checkpoints", []).append((sum((x[-1] if isinstance(x, list) else x) for x in rec["sizes"]), len(rec["emitted"])))
             if case.get("again_every") and rec["calls"] % case["again_every"] == 0 and rec.get("injected", 0) < 200:
@@ -333,6 +335,16 @@ def m_e2e(ctx, case):
 
     c = Client("127.0.0.1", port, {"sky": "skysense"}.get(kind, kind))
     err = None
+    # slow delivery: the clocks a client can read (time.time / monotonic / perf_counter, looked up through the time module)
+    # jump ahead by seconds, minutes or an hour between two reads - TCP promises nothing about timing, so no frame may be
+    # lost because the stream was quiet for a while.  (threading, zmq and the socket layer hold their own clock references.)
+    real_clocks = (time.time, time.monotonic, time.perf_counter)
+    vclock = {"off": 0.0}
+    if case.get("slow"):
+        time.time = lambda: real_clocks[0]() + vclock["off"]
+        time.monotonic = lambda: real_clocks[1]() + vclock["off"]
+        time.perf_counter = lambda: real_clocks[2]() + vclock["off"]
+        rec["vclock"] = vclock
     try:
         c.run()
     except StopRun:
@@ -342,11 +354,14 @@ def m_e2e(ctx, case):
             raise   # a hang is reported as inconclusive by the runner, never as a verdict
         err = "%s: %s" % (type(e).__name__, str(e)[:100])
     finally:
+        time.time, time.monotonic, time.perf_counter = real_clocks
         try:
             c.socket._s.close()
         except Exception:
             pass
     th.join(timeout=3)
+    if case.get("slow") and vclock["off"] > 0:
+        ctx.hit("e2e_quiet_spells_between_reads")
     ctx.ev()
     ctx.hit("e2e_sessions")
     msgs_exp = [m for _, m in exp]
@@ -601,4 +616,4 @@ def cases(ctx):
                     cuts.add(e + 1 + rng.randint(1, 3))
         cuts = sorted(cuts)
         yield "e2e", {"kind": fmt, "specs": specs, "cuts": cuts, "delay": rng.choice((0.02, 0.05)),
-                      "again_every": rng.choice((0, 2, 2, 3))}
+                      "again_every": rng.choice((0, 2, 2, 3)), "slow": (k + ctx.shard) % 2 == 1}
